@@ -353,7 +353,7 @@ func buildTransfer(a []string) []byte {
 
 // buildSetupRequest: PDU SESSION RESOURCE SETUP REQUEST (TS 38.413 9.2.1.1) with the optional RAN Paging Priority
 // and NAS-PDU IEs as requested and one setup item carrying the given NAS-PDU and transfer.
-func buildSetupRequest(rpp, nasPdu string, itemNas, transfer []byte) []byte {
+func buildSetupRequest(rpp, nasPdu string, itemNas, transfer []byte, more ...[]byte) []byte {
 	var pdu ngapType.NGAPPDU
 	pdu.Present = ngapType.NGAPPDUPresentInitiatingMessage
 	pdu.InitiatingMessage = new(ngapType.InitiatingMessage)
@@ -407,6 +407,15 @@ func buildSetupRequest(rpp, nasPdu string, itemNas, transfer []byte) []byte {
 		item.SNSSAI.SD = &ngapType.SD{Value: []byte{1, 2, 3}}
 		item.PDUSessionResourceSetupRequestTransfer = transfer
 		ie.Value.PDUSessionResourceSetupListSUReq = &ngapType.PDUSessionResourceSetupListSUReq{List: []ngapType.PDUSessionResourceSetupItemSUReq{item}}
+		// further items (NAS-PDU, transfer pairs): other sessions set up by the same message; the UE's own session is the first
+		for k := 0; k+1 < len(more); k += 2 {
+			o := ngapType.PDUSessionResourceSetupItemSUReq{}
+			o.PDUSessionID.Value = int64(2 + k/2)
+			o.PDUSessionNASPDU = &ngapType.NASPDU{Value: more[k]}
+			o.SNSSAI.SST.Value = []byte{1}
+			o.PDUSessionResourceSetupRequestTransfer = more[k+1]
+			ie.Value.PDUSessionResourceSetupListSUReq.List = append(ie.Value.PDUSessionResourceSetupListSUReq.List, o)
+		}
 		ies.List = append(ies.List, ie)
 	}
 	b, err := ngap.Encoder(pdu)
@@ -420,8 +429,14 @@ func buildSetupRequest(rpp, nasPdu string, itemNas, transfer []byte) []byte {
 // SCTPConn wrapper only reads and writes the descriptor). The peer reads the UL NAS TRANSPORT, answers with the
 // setup request and reads the setup response.
 func opEstablish(a []string) string {
-	exNeed(a, 4)
-	req := buildSetupRequest(a[0], a[1], aHex(a[2]), aHex(a[3]))
+	if len(a) != 4 && len(a) != 6 {
+		panic(badArg{})
+	}
+	var more [][]byte
+	if len(a) == 6 {
+		more = [][]byte{aHex(a[4]), aHex(a[5])}
+	}
+	req := buildSetupRequest(a[0], a[1], aHex(a[2]), aHex(a[3]), more...)
 	if len(req) > 2048 {
 		panic(badArg{}) // EstablishPDU reads into a 2048 octet buffer
 	}
@@ -621,6 +636,14 @@ func extractDomain(e *emitter) {
 		}
 		if len(buildAccept(ap))+len(buildTransfer(tp)) > 1800 {
 			continue
+		}
+		if k%3 == 2 {
+			// a second item (another session, other address / TEID / UPF) after the UE's own
+			a2, t2 := buildAccept(e.acceptParams(r.Intn(20), true)), buildTransfer(e.transferParams(true))
+			if len(buildAccept(ap))+len(buildTransfer(tp))+len(a2)+len(t2) <= 1800 {
+				e.op("establish", rpp, np, hx(buildAccept(ap)), hx(buildTransfer(tp)), hx(a2), hx(t2))
+				continue
+			}
 		}
 		e.op("establish", rpp, np, hx(buildAccept(ap)), hx(buildTransfer(tp)))
 	}
